@@ -32,6 +32,9 @@ func BlockInvalid(n *simnode.Node, b *nom.AccountBlock, enforceFrom uint64, rege
 	default:
 		return "type", fmt.Sprintf("block type %d is not acceptable from outside", b.BlockType)
 	}
+	if !isContract && len(b.DescendantBlocks) > 0 {
+		return "descendants", "a user block carries descendant blocks (it would extend the chain by more than one height with unsigned blocks)"
+	}
 	// hash commits to content
 	if golden.AccountBlockHash(b) != b.Hash {
 		return "hash", "hash does not match the content"
